@@ -310,6 +310,9 @@ func mcCatalog() *Catalog {
 	cat.addOpaque("bad", `{"schemaVersion":2,"config":`, false)
 	// an index naming the unreadable bytes as an image manifest, ahead of a real one
 	cat.addIndex("idz", [][2]string{{"bad", "image"}, {"img", "image"}}, "-", "-", "idz")
+	// the same bytes as a blob and as a manifest: imx has the bytes of the manifest sub as a layer, idw names imx and then sub
+	cat.addImage("imx", "b1", []string{"sub"}, "-", "-", "imx", "", 0)
+	cat.addIndex("idw", [][2]string{{"imx", "image"}, {"sub", "image"}}, "-", "-", "idw")
 	// large opaque manifests: pushing them takes long enough for concurrent pushes to overlap
 	for _, id := range []string{"big1", "big2", "big3"} {
 		cat.addOpaque(id, `{"id":"`+id+`","pad":"`+strings.Repeat("x", 3<<20)+`"}`, true)
@@ -374,6 +377,12 @@ func randCatalog(rnd *rand.Rand, nRepos, nTags, nb, nm int, big bool) *Catalog {
 			var layers []string
 			for j := rnd.Intn(3); j > 0; j-- {
 				l := pick(blobs)
+				if len(mans) > 0 && rnd.Intn(8) == 0 {
+					// a layer may be any bytes, those of a manifest included
+					if m := pick(mans); len(cat.byID[m].Data) < 65536 {
+						l = m
+					}
+				}
 				if rnd.Intn(3) == 0 {
 					l = "u:" + l
 				}
